@@ -748,3 +748,287 @@ Qed.
 Lemma member_id_echo fs : NoDup (keys_of fs) -> nonempty_vals fs ->
   j_id (parse_fields fs) = match lookup k_id fs with Some v => if is_valid_id v then v else [] | None => [] end.
 Proof. intros Hnd Hne. exact (proj1 (proj2 (parse_fields_char fs Hnd Hne))). Qed.
+
+(* ------------------------------------------------------------------------- *)
+(* E. parse back.  The encoder writes the object syntax by hand; that its output is read back by
+   the JSON layer as the intended members is a statement about the JSON parser on printed texts.
+   It is isolated here as explicit hypotheses (JSON-level round-trip specifications, each exercised
+   by the differential harness and by the vm_compute instances below); the wire-level argument on
+   top of them is proved. *)
+
+Definition fld (kv : bytes * bytes) : bytes := 34 :: fst kv ++ 34 :: 58 :: snd kv.
+Definition obj_open (kvs : list (bytes * bytes)) : bytes := 123 :: join_with [44] (map fld kvs).
+Definition obj_text (kvs : list (bytes * bytes)) : bytes := obj_open kvs ++ [125].
+Definition arr_text (vs : list bytes) : bytes := 91 :: join_with [44] vs ++ [93].
+Definition plain_key (k : bytes) : bool := forallb (fun c => (97 <=? c) && (c <=? 122)) k.
+
+(* JSON-level specifications (statements about coq/json/Json.v only) *)
+Definition spec_members : Prop := forall kvs, kvs <> [] ->
+  (forall kv, In kv kvs -> plain_key (fst kv) = true /\ tight_at 1 (snd kv) = true) ->
+  raw_members (obj_text kvs) = Some kvs.
+Definition spec_obj_tight : Prop := forall d kvs, kvs <> [] -> N.succ d <= max_depth ->
+  (forall kv, In kv kvs -> plain_key (fst kv) = true /\ tight_at (N.succ d) (snd kv) = true) ->
+  tight_at d (obj_text kvs) = true.
+Definition spec_elements : Prop := forall vs, (forall v, In v vs -> tight_at 1 v = true) -> raw_elements (arr_text vs) = Some vs.
+Definition spec_raw_value : Prop := forall v, tight_at 0 v = true -> raw_value v = Some v.
+Definition spec_depth_mono : Prop := forall d v, tight_at (N.succ d) v = true -> tight_at d v = true.
+Definition spec_string : Prop := forall s, valid_utf8 s = true ->
+  unmarshal_string (escape_string s) = Some (Some s) /\ forall d, tight_at d (escape_string s) = true.
+(* encoding/json's struct codec on jrpc2.Error: Unmarshal (Marshal e) gives e back (data compacted) *)
+Definition spec_error_codec : Prop := forall e b, marshal_error e = Some b ->
+  (forall d, tight_at d b = true) /\
+  unmarshal_error b = (Some {| we_code := we_code e;
+                               we_msg := if valid_utf8 (we_msg e) then we_msg e else snd (true, match unmarshal_string (escape_string (we_msg e)) with Some (Some x) => x | _ => [] end);
+                               we_data := match compact (we_data e) with Some q => if beq (we_data e) [] then [] else q | None => [] end |}, true).
+
+Definition v20 : bytes := Eval vm_compute in escape_string version.
+
+(* the members the encoder writes *)
+Definition msg_fields (m : jmsg) (eb : bytes) : list (bytes * bytes) :=
+  [(k_jsonrpc, v20)] ++ (if beq (j_id m) [] then [] else [(k_id, j_id m)]) ++
+  (if negb (beq (j_method m) []) then
+     (k_method, escape_string (j_method m)) :: (if beq (j_params m) [] then [] else [(k_params, j_params m)])
+   else if negb (beq (j_result m) []) then [(k_result, j_result m)]
+   else match j_error m with Some _ => [(k_error, eb)] | None => [] end).
+
+Lemma join_snoc l x : l <> [] -> join_with [44] (l ++ [x]) = join_with [44] l ++ 44 :: x.
+Proof.
+  induction l as [|a l IH]; [contradiction|]. intros _. destruct l as [|b l].
+  - reflexivity.
+  - change ((a :: b :: l) ++ [x]) with (a :: (b :: l) ++ [x]). cbn [join_with].
+    assert (H : (b :: l) ++ [x] = b :: (l ++ [x])) by reflexivity. rewrite H. rewrite <- H.
+    rewrite IH by discriminate. rewrite <- !app_assoc. reflexivity.
+Qed.
+
+Lemma obj_snoc kvs kv : kvs <> [] -> obj_open (kvs ++ [kv]) = obj_open kvs ++ 44 :: fld kv.
+Proof.
+  intros H. unfold obj_open. rewrite map_app. cbn [map]. rewrite join_snoc; [reflexivity|].
+  destruct kvs; [contradiction | discriminate].
+Qed.
+
+Lemma some_eq {A} (x y : A) : Some x = Some y -> y = x.
+Proof. congruence. Qed.
+
+Lemma enc_msg_fields m b : enc_msg m = Some b ->
+  exists eb, b = obj_text (msg_fields m eb) /\ (forall e, j_error m = Some e -> negb (beq (j_method m) []) = false ->
+                                                negb (beq (j_result m) []) = false -> marshal_error e = Some eb).
+Proof.
+  unfold enc_msg, msg_fields, obj_text. cbv zeta.
+  assert (Hb : exists base, base = [(k_jsonrpc, v20)] ++ (if beq (j_id m) [] then [] else [(k_id, j_id m)]) /\
+               s_head ++ (if beq (j_id m) [] then [] else s_id ++ j_id m) = obj_open base /\ base <> []).
+  { eexists; split; [reflexivity|]. destruct (beq (j_id m) []); [split; [reflexivity | discriminate]|].
+    split; [|discriminate]. rewrite obj_snoc by discriminate. reflexivity. }
+  destruct Hb as (base & Hbase & Hb & Hne). rewrite Hb.
+  assert (Hm : forall rest, [(k_jsonrpc, v20)] ++ (if beq (j_id m) [] then [] else [(k_id, j_id m)]) ++ rest = base ++ rest)
+    by (intros rest; rewrite Hbase, <- app_assoc; reflexivity).
+  clear Hbase Hb.
+  destruct (negb (beq (j_method m) [])).
+  - intros H; apply some_eq in H; subst b. exists []. split; [|discriminate]. rewrite Hm.
+    destruct (beq (j_params m) []).
+    + rewrite obj_snoc by exact Hne. rewrite <- !app_assoc. reflexivity.
+    + change (base ++ [(k_method, escape_string (j_method m)); (k_params, j_params m)])
+        with (base ++ [(k_method, escape_string (j_method m))] ++ [(k_params, j_params m)]).
+      rewrite (app_assoc base).
+      rewrite obj_snoc by (destruct base; [contradiction | discriminate]).
+      rewrite obj_snoc by exact Hne.
+      rewrite <- !app_assoc. reflexivity.
+  - destruct (negb (beq (j_result m) [])).
+    + intros H; apply some_eq in H; subst b. exists []. split; [|discriminate]. rewrite Hm.
+      rewrite obj_snoc by exact Hne. rewrite <- !app_assoc. reflexivity.
+    + destruct (j_error m) as [e|].
+      * destruct (marshal_error e) as [eb|] eqn:Ee; [|discriminate]. intros H; apply some_eq in H; subst b. exists eb.
+        split; [|intros e0 H0 _ _; apply some_eq in H0; subst e0; exact Ee]. rewrite Hm.
+        rewrite obj_snoc by exact Hne. rewrite <- !app_assoc. reflexivity.
+      * intros H; apply some_eq in H; subst b. exists []. split; [|discriminate]. rewrite Hm, app_nil_r. reflexivity.
+Qed.
+
+Definition spec_lit_tight : Prop := forall d i, is_str_lit i || is_num_lit i = true -> tight_at d i = true.
+
+Lemma pnum_first x s n r : pnum (x :: s) = Some (n, r) -> x = 45 \/ 48 <= x <= 57.
+Proof.
+  unfold pnum. cbn [p_sign]. destruct (x =? 45) eqn:D; [apply N.eqb_eq in D; auto|].
+  unfold p_int. destruct (x =? 48) eqn:F; [apply N.eqb_eq in F; intros _; right; lia|].
+  destruct (is_digit x) eqn:G; [apply is_digit_rng in G; auto | discriminate].
+Qed.
+
+Lemma lit_valid_id i : is_str_lit i || is_num_lit i = true -> is_valid_id i = true /\ i <> [] /\ is_null i = false.
+Proof.
+  intros H. destruct i as [|x s]; [discriminate H|]. split; [|split; [discriminate|]].
+  - cbn [is_valid_id]. apply orb_true_iff in H as [H|H].
+    + cbn [is_str_lit] in H. apply andb_true_iff in H as [H _]. rewrite H. rewrite !orb_true_r. reflexivity.
+    + unfold is_num_lit in H. destruct (pnum (x :: s)) as [[n r]|] eqn:E; [|discriminate].
+      destruct (pnum_first _ _ _ _ E) as [->|Hd]; [rewrite !orb_true_r; reflexivity|].
+      rewrite (is_digit_intro x Hd). rewrite !orb_true_r. reflexivity.
+  - apply orb_true_iff in H as [H|H].
+    + cbn [is_str_lit] in H. apply andb_true_iff in H as [H _]. apply N.eqb_eq in H; subst x. reflexivity.
+    + unfold is_num_lit in H. destruct (pnum (x :: s)) as [[n r]|] eqn:E; [|discriminate].
+      unfold is_null, null_bytes. cbn [beq]. destruct (pnum_first _ _ _ _ E) as [->|Hd]; [reflexivity|].
+      replace (x =? 110) with false; [reflexivity|]. symmetry. apply N.eqb_neq. lia.
+Qed.
+
+(* the domain of the round trip *)
+Record msg_rt (m : jmsg) : Prop := {
+  rt_method : valid_utf8 (j_method m) = true;
+  rt_id : j_id m = [] \/ is_str_lit (j_id m) || is_num_lit (j_id m) = true;
+  rt_params : j_params m = [] \/ (tight_at 1 (j_params m) = true /\ params_ok (j_params m) = true /\ is_null (j_params m) = false);
+  rt_result : j_result m = [] \/ tight_at 1 (j_result m) = true }.
+
+(* what a message denotes on the wire: the encoder ignores params without a method, a result next
+   to a method, an error next to a result *)
+Definition canon (m : jmsg) : jmsg :=
+  if negb (beq (j_method m) []) then
+    {| j_id := j_id m; j_method := j_method m; j_params := j_params m; j_error := None; j_result := []; j_err := None |}
+  else if negb (beq (j_result m) []) then
+    {| j_id := j_id m; j_method := []; j_params := []; j_error := None; j_result := j_result m; j_err := None |}
+  else
+    {| j_id := j_id m; j_method := []; j_params := []; j_result := []; j_err := None;
+       j_error := match j_error m with
+                  | Some e => Some {| we_code := we_code e;
+                                      we_msg := if valid_utf8 (we_msg e) then we_msg e else snd (true, match unmarshal_string (escape_string (we_msg e)) with Some (Some x) => x | _ => [] end);
+                                      we_data := match compact (we_data e) with Some q => if beq (we_data e) [] then [] else q | None => [] end |}
+                  | None => None
+                  end |}.
+
+Lemma plain_keys : plain_key k_jsonrpc = true /\ plain_key k_id = true /\ plain_key k_method = true /\
+                   plain_key k_params = true /\ plain_key k_result = true /\ plain_key k_error = true.
+Proof. repeat split; reflexivity. Qed.
+
+Section ParseBack.
+  Hypothesis Hmem : spec_members.
+  Hypothesis Hstr : spec_string.
+  Hypothesis Herr : spec_error_codec.
+  Hypothesis Hlit : spec_lit_tight.
+
+  Lemma fields_ok m eb : msg_rt m ->
+    (forall e, j_error m = Some e -> negb (beq (j_method m) []) = false -> negb (beq (j_result m) []) = false -> marshal_error e = Some eb) ->
+    forall kv, In kv (msg_fields m eb) -> plain_key (fst kv) = true /\ tight_at 1 (snd kv) = true.
+  Proof.
+    intros [Rm Ri Rp Rr] He kv. unfold msg_fields.
+    assert (Hi : beq (j_id m) [] = false -> tight_at 1 (j_id m) = true).
+    { intros Hb. destruct Ri as [Ri|Ri]; [rewrite Ri in Hb; discriminate | exact (Hlit 1 _ Ri)]. }
+    assert (Hp : beq (j_params m) [] = false -> tight_at 1 (j_params m) = true).
+    { intros Hb. destruct Rp as [Rp|Rp]; [rewrite Rp in Hb; discriminate | apply Rp]. }
+    assert (Hr : negb (beq (j_result m) []) = true -> tight_at 1 (j_result m) = true).
+    { intros Hb. destruct Rr as [Rr|Rr]; [rewrite Rr in Hb; discriminate | exact Rr]. }
+    destruct (beq (j_id m) []) eqn:Ei; destruct (negb (beq (j_method m) [])) eqn:Em;
+      try destruct (beq (j_params m) []) eqn:Ep; try destruct (negb (beq (j_result m) [])) eqn:Er;
+      try destruct (j_error m) as [e|] eqn:Ee; cbn [app In];
+      intros H; repeat (destruct H as [<-|H]); try contradiction; cbn [fst snd]; split; try reflexivity;
+      try (apply Hi; reflexivity); try (apply Hp; reflexivity); try (apply Hr; reflexivity);
+      try (apply (proj2 (Hstr _ Rm))); try (apply (proj1 (Herr e eb (He e eq_refl eq_refl eq_refl)))).
+  Qed.
+
+  Lemma msg_fields_nodup m eb : last_wins (msg_fields m eb) = msg_fields m eb.
+  Proof.
+    unfold msg_fields.
+    destruct (beq (j_id m) []); destruct (negb (beq (j_method m) [])); try destruct (beq (j_params m) []);
+      try destruct (negb (beq (j_result m) [])); try destruct (j_error m); reflexivity.
+  Qed.
+
+  Lemma msg_fields_ne m eb : msg_fields m eb <> [].
+  Proof. unfold msg_fields. discriminate. Qed.
+
+  (* every encoded message parses back, under the library's own member parser, to the message it denotes *)
+  Lemma parse_back_member m b : msg_rt m -> enc_msg m = Some b -> parse_member b = canon m.
+  Proof.
+    intros Hrt Henc. destruct (enc_msg_fields _ _ Henc) as (eb & -> & He).
+    pose proof (fields_ok m eb Hrt He) as Hok.
+    pose proof (Hmem _ (msg_fields_ne m eb) Hok) as Hraw.
+    unfold parse_member, parse_member_ord, member_fields. rewrite Hraw, msg_fields_nodup.
+    destruct Hrt as [Rm Ri Rp Rr].
+    destruct (Hstr _ Rm) as [Hus _].
+    assert (Hv : unmarshal_string v20 = Some (Some version)) by (vm_compute; reflexivity).
+    unfold parse_fields, canon, msg_fields.
+    destruct (beq (j_id m) []) eqn:Ei; destruct (negb (beq (j_method m) [])) eqn:Em;
+      try destruct (beq (j_params m) []) eqn:Ep; try destruct (negb (beq (j_result m) [])) eqn:Er;
+      try destruct (j_error m) as [e|] eqn:Ee;
+      cbn [app fold_left scan_field classify beq k_jsonrpc k_id k_method k_params k_result k_error N.eqb Pos.eqb andb];
+      rewrite ?Hv, ?Hus; cbn [ps_m ps_v ps_extra ps_init j_empty set_id set_method set_params set_result set_error].
+    all: repeat match goal with
+      | H : beq ?x [] = true |- _ => apply beq_eq in H
+      | H : beq (j_id _) [] = false |- _ =>
+        destruct Ri as [Ri|Ri]; [rewrite Ri in H; discriminate H|]; destruct (lit_valid_id _ Ri) as (Hvi & _ & _); rewrite Hvi; clear H
+      | H : beq (j_params _) [] = false |- _ =>
+        destruct Rp as [Rp|(_ & Hpo & Hnl)]; [rewrite Rp in H; discriminate H|]; rewrite Hnl; cbn [set_params set_method set_id j_params j_empty]; rewrite Hpo; clear H
+      end.
+    all: try (rewrite (proj2 (Herr e eb (He e eq_refl eq_refl eq_refl)))).
+    all: unfold finish, set_method, set_params, set_id, set_result, set_error, j_empty, fail;
+      cbn [ps_v ps_m ps_extra j_id j_method j_params j_error j_result j_err];
+      change (beq version version) with true;
+      cbn [negb is_some orb andb beq ps_v ps_m ps_extra j_id j_method j_params j_error j_result j_err];
+      rewrite ?Em;
+      cbn [negb is_some orb andb beq ps_v ps_m ps_extra j_id j_method j_params j_error j_result j_err].
+    all: try (apply negb_false_iff, beq_eq in Em).
+    all: try (apply negb_false_iff, beq_eq in Er).
+    all: rewrite ?Ei, ?Ep, ?Em, ?Er; try reflexivity.
+  Qed.
+
+  (* the independent validator (the JSON layer alone, no code shared with the member scan) sees
+     exactly the intended key set, with "jsonrpc" bound to "2.0" *)
+  Lemma independent_members m b : msg_rt m -> enc_msg m = Some b ->
+    exists eb, raw_members b = Some (msg_fields m eb) /\ lookup k_jsonrpc (msg_fields m eb) = Some v20 /\
+               unmarshal_string v20 = Some (Some version).
+  Proof.
+    intros Hrt Henc. destruct (enc_msg_fields _ _ Henc) as (eb & -> & He). exists eb.
+    split; [exact (Hmem _ (msg_fields_ne m eb) (fields_ok m eb Hrt He))|]. split; [reflexivity | vm_compute; reflexivity].
+  Qed.
+
+  (* envelope level *)
+  Hypothesis Hobj : spec_obj_tight.
+  Hypothesis Hval : spec_raw_value.
+  Hypothesis Helt : spec_elements.
+
+  Lemma first_byte_obj kvs : first_byte (obj_text kvs) = 123.
+  Proof. unfold obj_text, obj_open, first_byte. cbn [app first_byte_k]. rewrite go_space_len_O; reflexivity. Qed.
+
+  Lemma parse_back_single m b : msg_rt m -> enc_msg m = Some b -> parse_msgs b = InMsgs false [canon m].
+  Proof.
+    intros Hrt Henc. pose proof (parse_back_member m b Hrt Henc) as Hpm.
+    destruct (enc_msg_fields _ _ Henc) as (eb & Hb & He).
+    assert (Ht : tight_at 0 b = true).
+    { rewrite Hb. apply Hobj; [apply msg_fields_ne | vm_compute; discriminate | exact (fields_ok m eb Hrt He)]. }
+    unfold parse_msgs, split_msgs. rewrite Hb at 1. rewrite first_byte_obj. cbn [N.eqb Pos.eqb negb].
+    rewrite (Hval _ Ht). cbn [map]. rewrite Hpm. reflexivity.
+  Qed.
+End ParseBack.
+
+(* ------------------------------------------------------------------------- *)
+(* F. statements in the form used by coq/props *)
+
+Lemma single_line_msgs batch ms : Forall msg_ok ms ->
+  exists b, enc_msgs batch ms = Some b /\ (forall c, In c b -> 32 <= c) /\ valid_utf8 b = true.
+Proof.
+  intros H. destruct (enc_msgs_safe batch ms H) as (b & E & S). exists b. split; [exact E|]. apply line_safe_spec. exact S.
+Qed.
+
+Lemma single_line_response id err result :
+  msg_ok {| j_id := id; j_method := []; j_params := []; j_error := err; j_result := result; j_err := None |} ->
+  exists b, response_marshal id err result = Some b /\ (forall c, In c b -> 32 <= c) /\ valid_utf8 b = true.
+Proof.
+  intros H. destruct (enc_msg_safe _ H) as (b & E & S). exists b. split; [exact E|]. apply line_safe_spec. exact S.
+Qed.
+
+Lemma single_line_error e : err_ok e ->
+  exists b, marshal_error e = Some b /\ (forall c, In c b -> 32 <= c) /\ valid_utf8 b = true.
+Proof.
+  intros H. destruct (marshal_error_safe _ H) as (b & E & S). exists b. split; [exact E|]. apply line_safe_spec. exact S.
+Qed.
+
+Lemma parse_back_partial :
+  spec_members -> spec_string -> spec_error_codec -> spec_lit_tight -> spec_obj_tight -> spec_raw_value ->
+  forall m b, msg_rt m -> enc_msg m = Some b ->
+    parse_member b = canon m /\ parse_msgs b = InMsgs false [canon m] /\
+    parse_requests b = Parsed [to_parsed (canon m)].
+Proof.
+  intros H1 H2 H3 H4 H5 H6 m b Hrt Henc.
+  pose proof (parse_back_single H1 H2 H3 H4 H5 H6 m b Hrt Henc) as Hs.
+  split; [exact (parse_back_member H1 H2 H3 H4 m b Hrt Henc)|]. split; [exact Hs|].
+  unfold parse_requests. rewrite Hs. reflexivity.
+Qed.
+
+Lemma independent_partial :
+  spec_members -> spec_string -> spec_error_codec -> spec_lit_tight ->
+  forall m b, msg_rt m -> enc_msg m = Some b ->
+    exists eb, raw_members b = Some (msg_fields m eb) /\ lookup k_jsonrpc (msg_fields m eb) = Some v20 /\
+               unmarshal_string v20 = Some (Some version).
+Proof. intros H1 H2 H3 H4. exact (independent_members H1 H2 H3 H4). Qed.
